@@ -278,7 +278,11 @@ pub fn rand(min: u64, max: u64, unused3: u64, unused4: u64, unused5: u64) -> u64
     });
 
     if min < max {
-        n = n % (max + 1 - min) + min;
+        // `max + 1 - min` overflows when the range is the whole u64 domain.
+        let span = max - min;
+        if span < u64::MAX {
+            n = n % (span + 1) + min;
+        }
     };
     n
 }
